@@ -12,7 +12,7 @@ class TickBudget(Exception):
 
 
 class DbgSession:
-    def __init__(self, module, script, budget=60000, cpu_class=None):
+    def __init__(self, module, script, budget=60000, cpu_class=None, autostatus='off'):
         self.module = module
         self.out = io.StringIO()
         self.machine, self.impl = rt.make_machine(module, script, cpu_class)
@@ -31,7 +31,9 @@ class DbgSession:
         cpu.tick = counted_tick
         with contextlib.redirect_stdout(self.out):
             self.cmd = qdbg.Cmd(self.machine, module)
-            self.cmd.onecmd('autostatus off')
+            # 'cur' is the debugger's default (source context after every command that runs the program)
+            if autostatus != 'cur':
+                self.cmd.onecmd(f'autostatus {autostatus}')
         self.finished_seen = False
 
     def do(self, line):
